@@ -26,6 +26,33 @@ fn not_accepted(r: &Result<Result<bool, String>, Panicked>) -> Result<(), String
     }
 }
 
+/// proof of position i equals the ideal tree's path *now* (used after every step of the history, on
+/// the same watched positions, so that anything remembered from an earlier query shows)
+fn light_check(b: &dyn Backend, m: &TreeModel, i: usize) -> Result<u64, String> {
+    let name = b.kind().name();
+    let stored = m.get(i).unwrap();
+    let (sibs, bits) = m.proof(i).unwrap();
+    let obs = match b.proof_obs(i, &[stored]) {
+        Ok(Ok(o)) => o,
+        Ok(Err(e)) => return Err(format!("{name}: proof({i}) failed: {e}")),
+        Err(p) => return Err(format!("{name}: proof({i}) panicked: {}", p.0)),
+    };
+    let v = &obs.view;
+    if v.bits != bits || v.leaf_index != i {
+        return Err(format!("{name}: proof({i}) has direction bits {:?} / leaf_index {}, expected {:?}", v.bits, v.leaf_index, bits));
+    }
+    if v.elements != sibs {
+        let j = (0..m.depth.min(v.elements.len())).find(|j| v.elements[*j] != sibs[*j]);
+        return Err(format!("{name}: proof({i}) differs from the ideal tree's path at level {j:?} (a path handed out earlier for this position?)"));
+    }
+    if let Some(r) = obs.roots.first() {
+        if *r != m.root() {
+            return Err(format!("{name}: proof({i}).compute_root_from(stored leaf) is not the current root"));
+        }
+    }
+    Ok(1)
+}
+
 /// all proof checks for one position on one backend; returns number of evaluations
 fn check_position(b: &dyn Backend, m: &TreeModel, i: usize, other: Fr, o: &mut Outcome) -> Result<u64, String> {
     let name = b.kind().name();
@@ -135,7 +162,7 @@ impl Property for C07 {
         "C07"
     }
     fn rule(&self) -> String {
-        "a reachable tree state (history of up to 20 generated operations incl. deletes, range writes and batches) x positions (all positions for depth<=5, else generated positions incl. 0, cap-1, mark, cap/2±1 and uniform) x alterations (every level: sibling +1 / replaced by the path node / zeroed; direction bit flipped); per backend: length, leaf_index, LSB-first bits and siblings equal the ideal tree's, compute_root_from(stored leaf) = root, verify accepts, a different leaf never recomputes the root, every sibling alteration and every bit flip at a level whose children differ is not accepted; RLN::get_proof bytes are decoded with the independent codec. \
+        "a reachable tree state (history of up to 20 generated operations incl. deletes, range writes and batches) x positions (all positions for depth<=5, else generated positions incl. 0, cap-1, mark, cap/2±1 and uniform) x alterations (every level: sibling +1 / replaced by the path node / zeroed; direction bit flipped); per backend: length, leaf_index, LSB-first bits and siblings equal the ideal tree's, compute_root_from(stored leaf) = root, verify accepts, a different leaf never recomputes the root, every sibling alteration and every bit flip at a level whose children differ is not accepted; RLN::get_proof bytes are decoded with the independent codec; up to four watched positions are additionally queried after every step of the history and compared with the ideal tree's current path. \
          non-trivial = state reached through a delete or a batch/range write, or a position >= cap/2; distinct by case content".into()
     }
     fn assumptions(&self) -> Vec<String> {
@@ -191,6 +218,19 @@ impl Property for C07 {
                         return o;
                     }
                 }
+                // the watched positions are queried after every step (same positions each time)
+                let (cap, mark) = (m.cap(), m.mark);
+                for p in case.positions.iter().take(4) {
+                    let i = p.resolve(cap, mark.min(cap - 1)).min(cap - 1);
+                    match light_check(b.as_ref(), &m, i) {
+                        Ok(n) => o.evals += n,
+                        Err(e) => {
+                            vfail!(o, "depth {depth}, after step {k} ({}): {e}", op.resolve(&m).kind());
+                            return o;
+                        }
+                    }
+                }
+                o.label("path-queried-after-every-step");
             }
             let cap = m.cap();
             let mut positions: Vec<usize> = if depth <= 5 { (0..cap).collect() } else { vec![0, cap - 1, cap / 2, cap / 2 - 1] };
